@@ -10,6 +10,7 @@ import hashlib
 import os
 import shutil
 import subprocess
+import time
 from concurrent.futures import ThreadPoolExecutor
 
 from vt.core import ROOT, REPO, HarnessBroken, NCPU
@@ -42,9 +43,6 @@ def _inputs():
         dn.sort()
         for f in sorted(fn):
             files.append(os.path.join(dp, f))
-    for f in sorted(os.listdir(DRV)):
-        if f.endswith(('.c', '.h')):
-            files.append(os.path.join(DRV, f))
     files.append(os.path.join(REPO, 'meson.build'))
     return files
 
@@ -80,7 +78,25 @@ class Build(object):
         self.generate = os.path.join(d, 'g-ir-generate')
 
     def driver(self, name):
-        return os.path.join(self.dir, name)
+        """Path of the driver vt/c/<name>.c built against this build's static libraries
+        (compiled on first use, keyed by the hash of its source)."""
+        src = os.path.join(DRV, name + '.c')
+        with open(src, 'rb') as f:
+            h = hashlib.sha1(f.read()).hexdigest()[:12]
+        exe = os.path.join(self.dir, '%s-%s' % (name, h))
+        if os.path.exists(exe):
+            return exe
+        with open(os.path.join(OUT, 'lock'), 'w') as lk:
+            fcntl.flock(lk, fcntl.LOCK_EX)
+            if os.path.exists(exe):
+                return exe
+            cc, cflags, ldflags, libs = _toolchain(self.dir, self.asan)
+            log = []
+            tmp = exe + '.tmp%d' % os.getpid()
+            if _run([cc] + cflags + ldflags + [src] + libs + ['-o', tmp], log):
+                raise HarnessBroken('driver build failed:\n' + '\n'.join(log[:3]))
+            os.replace(tmp, exe)
+        return exe
 
     def env(self):
         e = dict(os.environ)
@@ -91,6 +107,25 @@ class Build(object):
         e['G_DEBUG'] = 'fatal-criticals'
         e['LC_ALL'] = 'C'
         return e
+
+
+def _toolchain(d, asan):
+    gi = os.path.join(REPO, 'girepository')
+    cc = 'clang' if asan else 'gcc'
+    cflags = ['-std=gnu99', '-O1', '-g', '-DHAVE_CONFIG_H', '-DG_IREPOSITORY_COMPILATION', '-DGI_COMPILATION',
+              '-DG_LOG_DOMAIN="GLib-GIRepository"',
+              '-I' + SHIM, '-I' + d, '-I' + gi, '-I' + REPO, '-I' + os.path.join(gi, 'cmph'),
+              '-I/usr/include/x86_64-linux-gnu',
+              '-Werror=implicit-function-declaration', '-Werror=incompatible-pointer-types',
+              '-Werror=int-conversion', '-Wno-deprecated-declarations']
+    ldflags = []
+    if asan:
+        cflags += ['-fsanitize=address,undefined', '-fno-omit-frame-pointer', '-fno-sanitize-recover=undefined',
+                   '-fno-sanitize=alignment']
+        ldflags = ['-fsanitize=address,undefined']
+    libs = [os.path.join(d, 'libint.a'), os.path.join(d, 'libgirepo.a'), os.path.join(d, 'libint.a'),
+            os.path.join(d, 'libcmph.a')] + SYSLIBS + ['-lffi', '-lm', '-ldl']
+    return cc, cflags, ldflags, libs
 
 
 def build(asan=False):
@@ -105,7 +140,12 @@ def build(asan=False):
         for old in os.listdir(OUT):
             p = os.path.join(OUT, old)
             if os.path.isdir(p) and old.endswith('-asan') == asan and old != h:
-                shutil.rmtree(p, ignore_errors=True)
+                try:
+                    age = time.time() - os.path.getmtime(p)
+                except OSError:
+                    continue
+                if age > 7200:     # another process may still be using a recent build
+                    shutil.rmtree(p, ignore_errors=True)
         shutil.rmtree(d, ignore_errors=True)
         os.makedirs(os.path.join(d, 'obj'))
         gi = os.path.join(REPO, 'girepository')
@@ -114,16 +154,7 @@ def build(asan=False):
         txt = txt.replace('@GI_MAJOR_VERSION@', maj).replace('@GI_MINOR_VERSION@', mnr).replace('@GI_MICRO_VERSION@', mic)
         with open(os.path.join(d, 'giversion.h'), 'w') as f:
             f.write(txt)
-        cc = 'clang' if asan else 'gcc'
-        cflags = ['-std=gnu99', '-O1', '-g', '-DHAVE_CONFIG_H', '-DG_IREPOSITORY_COMPILATION', '-DGI_COMPILATION',
-                  '-DG_LOG_DOMAIN="GLib-GIRepository"',
-                  '-I' + SHIM, '-I' + d, '-I' + gi, '-I' + REPO, '-I' + os.path.join(gi, 'cmph'),
-                  '-I/usr/include/x86_64-linux-gnu',
-                  '-Werror=implicit-function-declaration', '-Werror=incompatible-pointer-types',
-                  '-Werror=int-conversion', '-Wno-deprecated-declarations']
-        if asan:
-            cflags += ['-fsanitize=address,undefined', '-fno-omit-frame-pointer', '-fno-sanitize-recover=undefined',
-                       '-fno-sanitize=alignment']
+        cc, cflags, ldflags, libs = _toolchain(d, asan)
         jobs = []
         for s in INT_SRCS + REPO_SRCS:
             jobs.append((os.path.join(gi, s), os.path.join(d, 'obj', s[:-2] + '.o')))
@@ -131,9 +162,6 @@ def build(asan=False):
             jobs.append((os.path.join(gi, 'cmph', s), os.path.join(d, 'obj', 'cmph_' + s[:-2] + '.o')))
         for s in ('compiler.c', 'generate.c'):
             jobs.append((os.path.join(REPO, 'tools', s), os.path.join(d, 'obj', 'tool_' + s[:-2] + '.o')))
-        drivers = [f for f in sorted(os.listdir(DRV)) if f.startswith('drv_') and f.endswith('.c')]
-        for s in drivers:
-            jobs.append((os.path.join(DRV, s), os.path.join(d, 'obj', s[:-2] + '.o')))
         log = []
         with ThreadPoolExecutor(NCPU) as ex:
             rcs = list(ex.map(lambda j: _run([cc] + cflags + ['-c', j[0], '-o', j[1]], log), jobs))
@@ -143,14 +171,9 @@ def build(asan=False):
         _run(['ar', 'rcs', os.path.join(d, 'libint.a')] + [o(s[:-2]) for s in INT_SRCS], log)
         _run(['ar', 'rcs', os.path.join(d, 'libgirepo.a')] + [o(s[:-2]) for s in REPO_SRCS], log)
         _run(['ar', 'rcs', os.path.join(d, 'libcmph.a')] + [o('cmph_' + s[:-2]) for s in CMPH_SRCS], log)
-        libs = [os.path.join(d, 'libint.a'), os.path.join(d, 'libgirepo.a'), os.path.join(d, 'libint.a'),
-                os.path.join(d, 'libcmph.a')] + SYSLIBS + ['-lffi', '-lm', '-ldl']
-        ldflags = ['-fsanitize=address,undefined'] if asan else []
         links = [('g-ir-compiler', o('tool_compiler'), libs),
                  # generate.c must not pull girparser.o (it references logged_levels defined only in compiler.c)
                  ('g-ir-generate', o('tool_generate'), libs)]
-        for s in drivers:
-            links.append((s[:-2], o(s[:-2]), libs))
         for name, obj, l in links:
             if _run([cc] + ldflags + [obj] + l + ['-o', os.path.join(d, name)], log):
                 raise HarnessBroken('C link failed:\n' + '\n'.join(log[:3]))
